@@ -6,7 +6,7 @@ for d in /verif/seeded/C*/; do
   n=$(basename $d); p=${n:0:3}
   git -C /repo checkout -q -- . ; git -C /repo apply $d/patch.diff || { echo "$n APPLY-FAIL" >> $out; continue; }
   t0=$(date +%s)
-  res=$(cd /verif && python3-vt checks/check.py $p --tier quick 2>&1 | grep -E "VIOLATION|UNDECIDED|ENGINE|obligations" | cut -c1-200 | tr '\n' '|')
+  res=$(cd /verif && PYVC_NO_EVIDENCE=1 PYVC_REPLAY_DIR=${SEED_REPLAY_DIR:-/verif/replays/tmp-seeds} python3-vt checks/check.py $p --tier quick 2>&1 | grep -E "VIOLATION|UNDECIDED|ENGINE|obligations" | cut -c1-200 | tr '\n' '|')
   rc=$?
   git -C /repo checkout -q -- .
   echo "$n [$(( $(date +%s) - t0 ))s] $res" >> $out
